@@ -247,39 +247,7 @@ func doReplay(file string, verbose bool) int {
 	x := execute(&rp.Scenario, ch, verbose)
 	res := analyse(x)
 	if verbose {
-		for _, l := range x.S.Trace {
-			fmt.Println("TRACE", l)
-		}
-		for _, wr := range x.W {
-			if wr.Inst != nil {
-				for _, r := range wr.Inst.Fed {
-					fmt.Printf("FED w%d feed@%d %s\n", wr.Idx, r.FeedStep, r)
-				}
-				for _, c := range wr.Inst.Calls {
-					fmt.Printf("SYSCALL w%d %+v\n", wr.Idx, c)
-				}
-			}
-			for _, d := range wr.D {
-				fmt.Printf("EVENT w%d @%d %s\n", wr.Idx, d.Step, d.Str)
-			}
-			for _, e := range wr.E {
-				fmt.Printf("ERROR w%d @%d %s\n", wr.Idx, e.Step, e.Err)
-			}
-		}
-		for _, c := range x.H {
-			fmt.Printf("CALL #%d %s %s(%q) w%d [%d,%d] err=%q list=%q panic=%q\n", c.Idx, c.Task, c.Kind, c.Path, c.W, c.Inv, c.Ret, c.Err, c.List, c.Panic)
-		}
-		for _, w := range x.WorldLog {
-			fmt.Printf("WORLD @%d %s %+v err=%s\n", w.Step, w.Task, w.Op, w.Err)
-		}
-		if x.sim.Shadow != nil {
-			for _, g := range x.sim.Shadow.G {
-				fmt.Printf("G %s\n", g)
-			}
-		}
-		for _, l := range res.Deadlock {
-			fmt.Println("PARKED", l)
-		}
+		dumpRun(x, res)
 	}
 	want := ""
 	if rp.Violation != nil {
